@@ -14,18 +14,21 @@ IMPL_SAFETY = ["ExactlyOnce", "HeldCovered", "CmdCovered", "AllExecuted", "Conti
 META = dict(
     text="Trace validation against a TLA+ specification plus model checking of the hand-over mechanism: randomized "
          "concurrent scenarios (2-4 callers doing Add/Flush/Wait, hand-driven ticks, virtual-clock jumps that make the "
-         "background flusher retire and be restarted) and one directed hand-over scenario are run on the real "
+         "background flusher retire and be restarted) and two directed scenarios (the hand-over window of a threshold Add, and "
+         "the flusher's idle-quit decision racing a threshold Add) are run on the real "
          "PeriodicalExecutor (recording TaskContainer: AddTask/RemoveAll logged under pe.lock, Execute begin/end), "
          "BulkExecutor and ChunkExecutor (public API + execute callback) with the race detector and several GOMAXPROCS; "
          "TLC decides for every history whether it is a behaviour of spec/Executor.tla (every task executed exactly "
          "once, batches are runs of consecutive adds in order, bulk/chunk bounds, Wait returns only after every task "
-         "whose Add returned before the Wait call has finished executing, nothing left at quiescence). "
+         "whose Add returned before the Wait call has finished executing, nothing left at quiescence; a public call that does "
+         "not return although ticks and clock jumps are kept going for a 30 s grace period closes the history with a `hang` "
+         "event that the specification never allows). "
          "spec/PeriodicalImpl.tla (pe.lock regions, inflight, guarded, 1-slot commander, unbuffered confirmChan, "
          "wgBarrier/waitGroup, flusher select loop, shallQuit, final Flush) is model-checked over all interleavings for "
          "exactly-once, flusher-alive-while-work-pending, single loop flusher and deadlock freedom.",
     note="Trusted: TLC, the tracer's global sequence number (container events are emitted under pe.lock; inv before / ret "
          "after each call), Go race detector, the in-package reads of pe.guarded used only as a harness barrier. "
-         "Coverage of the real code is the set of recorded schedules (plus the directed hand-over scenario), not all "
+         "Coverage of the real code is the set of recorded schedules (plus the two directed scenarios), not all "
          "schedules: the exhaustive exploration is on the PeriodicalImpl model, whose counterexamples are leads only "
          "(reported in evidence, never as violations). No ExecutorGen/spec->code replay and no vhook gates (tier 2 of "
          "the design) were built; bulk/chunk use a real 1 ms ticker in half of the histories. lib/store/sqlx/bulkinserter.go "
@@ -54,9 +57,10 @@ def scripts(*ss):
 
 
 def mc_impl(ctx):
-    """All interleavings of the mechanism.  Fix=0 is the code under test, Fix=1 the proposed repair of the
-    hand-over window.  Safety + deadlock must hold (else the model or the code is off: exit 2 with the
-    counterexample as a lead); WaitSound counterexamples are leads, recorded in evidence."""
+    """All interleavings of the mechanism.  Fix=1 is the code under test (hand-over repaired: inflight is decremented
+    after enterExecution and Wait lets inflight drain), Fix=0 the mechanism before that repair.  Safety, WaitSound and
+    deadlock freedom must hold for Fix=1 (else the model is off: exit 2, the counterexample is a lead); the WaitSound
+    counterexamples of Fix=0 are kept in evidence as the leads that the directed hand-over scenario reproduces."""
     if ctx.quick:
         plans = [("thr2", scripts(["add", "wait"], ["add", "add"]), 2), ("thr1", scripts(["add", "wait"], ["add", "wait"]), 1)]
     else:
@@ -65,24 +69,22 @@ def mc_impl(ctx):
                  ("flush", scripts(["add", "flush", "wait"], ["add", "add"]), 2)]
     leads = {}
     for name, sc, thr in plans:
-        light = ctx.quick and name == "thr1"      # quick tier: only the WaitSound lead for the threshold-1 shape
         na = sc.count("<<") - 1
-        K = dict(NA=na, Scripts=sc, Thr=thr, MaxGen=2, Cap=1, Fix=0)
-        cfg = core.render_cfg(spec="Spec", constants=K, invariants=IMPL_SAFETY, check_deadlock=True)
-        if not light:
-            r = ctx.tlc("PeriodicalImpl", cfg, constants=K, name="Impl-%s-safety" % name, workers=6, timeout=1500, coverage=True)
-            ctx.check_coverage(r, ["ALock", "ASendBuf", "Confirm", "FRecv", "FTick", "FQuitChk", "ClockJump", "WWait", "Fl2", "X1"])
-        for fix in ((0,) if light else (0, 1)):
-            K2 = dict(K, Fix=fix)
-            cfg = core.render_cfg(spec="Spec", constants=K2, invariants=["WaitSound"], check_deadlock=True)
-            r = ctx.tlc("PeriodicalImpl", cfg, constants=K2, name="Impl-%s-wait-fix%d" % (name, fix), workers=6,
-                        timeout=1500, allow_violation=True)
-            if r.violated:
-                steps = [l.split(" line")[0].replace("State ", "").strip() for l in r.trace_text.splitlines() if l.startswith("State ")]
-                leads["%s/Fix=%d" % (name, fix)] = dict(violated=r.violated, length=len(steps), actions=steps[:40])
+        K = dict(NA=na, Scripts=sc, Thr=thr, MaxGen=2, Cap=1, Fix=1)
+        cfg = core.render_cfg(spec="Spec", constants=K, invariants=IMPL_SAFETY + ["WaitSound"], check_deadlock=True)
+        r = ctx.tlc("PeriodicalImpl", cfg, constants=K, name="Impl-%s-code" % name, workers=6, timeout=1500, coverage=True)
+        ctx.check_coverage(r, ["ALock", "ASendBuf", "Confirm", "FRecv", "FTick", "FQuitChk", "ClockJump", "WWait", "WDrain", "Fl2", "X1"])
+        if ctx.quick and name == "thr1":
+            continue
+        K0 = dict(K, Fix=0)
+        cfg = core.render_cfg(spec="Spec", constants=K0, invariants=["WaitSound"], check_deadlock=True)
+        r = ctx.tlc("PeriodicalImpl", cfg, constants=K0, name="Impl-%s-before-repair" % name, workers=6, timeout=1500, allow_violation=True)
+        if r.violated:
+            steps = [l.split(" line")[0].replace("State ", "").strip() for l in r.trace_text.splitlines() if l.startswith("State ")]
+            leads["%s/Fix=0" % name] = dict(violated=r.violated, length=len(steps), actions=steps[:40])
     ctx.notes["impl_model_leads"] = leads or "none"
-    ctx.notes["impl_model_leads_meaning"] = ("TLC counterexamples of WaitSound on PeriodicalImpl.tla (Fix=0 = mechanism as in "
-                                             "periodicalexecutor.go, Fix=1 = proposed repair); leads only - verdicts come from recorded histories")
+    ctx.notes["impl_model_leads_meaning"] = ("TLC counterexamples of WaitSound on PeriodicalImpl.tla with Fix=0 (the hand-over as it was "
+                                             "before the repair of Wait); leads only - verdicts come from recorded histories")
 
 
 # --------------------------------------------------------------------------- record + validate
@@ -131,6 +133,17 @@ def describe(segment, first_bad):
                 why.append("batch of %d bytes already held %d >= limit %d before its last task" % (
                     sum(size[t] for t in b), sum(size[t] for t in b) - size[b[-1]], conf["max"]))
             return " [%s]" % ("; ".join(why) or "not a run of consecutively added, not yet executed tasks in the order they were added")
+        if bad.get("e") == "hang":
+            stacks = ""
+            try:
+                stacks = open(bad.get("stacks", "")).read()[:12000]
+            except Exception:
+                pass
+            calls = ", ".join("caller %d: %s%s" % (c["p"], c["op"].capitalize(), "(task %d)" % c["t"] if c["op"] == "add" else "()")
+                              for c in bad.get("calls", []))
+            return (" [calls that never returned although ticks and clock jumps were kept going for %d ms: %s; tasks added but never "
+                    "executed: %s; the specification (deadlock freedom, a flusher alive while work is pending) has no such behaviour]"
+                    "\ngoroutines at the end of the grace period:\n%s" % (bad.get("grace_ms", 0), calls or "none", bad.get("unexecuted"), stacks))
         if bad.get("e") == "quiesce":
             return " [at quiescence (all callers returned, final Wait returned, flusher retired) some added task was not executed exactly once]"
         if bad.get("e") != "wret":
@@ -167,11 +180,14 @@ def run(ctx):
         if path is None:
             continue
         validate(ctx, path, "trace-%d" % shard)
+        if ctx.counters.get("rec.hangs", 0):
+            ctx.notes["recording_stopped_after_hang"] = "shard %d" % shard
+            break       # each further recorder would spend the grace period on the same hang
         if not ctx.samples:
             lines = open(path).read().splitlines()
             ctx.samples.append([json.loads(x) for x in lines[:16]])
-    if not ctx.quick:
-        for k in ("rec.flusher_stops", "rec.hist_handover", "rec.hist_bulk", "rec.hist_chunk", "rec.takes_nonempty", "rec.waits"):
+    if not ctx.quick and not ctx.counters.get("rec.hangs", 0):
+        for k in ("rec.flusher_stops", "rec.hist_handover", "rec.hist_quitrace", "rec.hist_bulk", "rec.hist_chunk", "rec.takes_nonempty", "rec.waits"):
             if ctx.counters.get(k, 0) == 0:
                 raise core.Infra("vacuous recording: counter %s is 0" % k)
     ctx.assumptions += [
@@ -192,13 +208,18 @@ def replay(ctx, rp):
         first = json.loads(seg[0])
     except Exception:
         first = {}
-    kind = "handover" if first.get("sc") == "handover" else first.get("kind", "")
-    kinds = {"per": ["handover", "per"], "handover": ["handover"], "bulk": ["bulk"], "chunk": ["chunk"]}.get(kind, ["handover", "per", "bulk", "chunk"])
+    kind = first.get("sc") if first.get("sc") in ("handover", "quitrace") else first.get("kind", "")
+    kinds = {"per": ["handover", "quitrace", "per"], "handover": ["handover"], "quitrace": ["quitrace"], "bulk": ["bulk"],
+             "chunk": ["chunk"]}.get(kind, ["handover", "quitrace", "per", "bulk", "chunk"])
     binp = ctx.go_build(PKG, OVERLAY, race=True, name="c16drv")
     n = 0
     for k in kinds:
-        for gmp in ((4,) if k == "handover" else (1, 4)):
+        for gmp in ((4,) if k in ("handover", "quitrace") else (1, 4)):
             n += 1
-            p2 = record(ctx, binp, "replay-%s-g%d" % (k, gmp), 10 if k == "handover" else 120, gmp, n, kind=k)
+            p2 = record(ctx, binp, "replay-%s-g%d" % (k, gmp), 10 if k in ("handover", "quitrace") else 120, gmp, n, kind=k)
+            if ctx.counters.get("rec.hangs", 0):
+                if p2:
+                    validate(ctx, p2, "replay-%s-g%d" % (k, gmp))
+                return
             if p2:
                 validate(ctx, p2, "replay-%s-g%d" % (k, gmp))
